@@ -9,7 +9,7 @@ ATOMS = [b'a', b'\n', b'\x00', b'\xc3\xa9', b'\xe3\x81\x82', b'\xf0\x9f\x98\x80'
 RULE = ('device output = concatenation of <=k atoms from a UTF-8-hostile alphabet (ASCII, NL, NUL, 2/3/4-byte sequences, 0xff, lone lead, '
         'lone continuation) plus the empty output; ALL 2^(n-1) partitions of the n-byte output into WRTE payloads (choice point) x '
         '{shell, exec_out, streaming_shell, root} x decode x {sync, async} x CLSE {after ack, eager}; large payloads at maxdata boundaries; '
-        'read-fragment deviations; a second live stream with distinct bytes in flight under every device wire order; an OPEN answered only after the caller timed out, followed by further commands; oracle = device-side '
+        'read-fragment deviations; a second live stream with distinct bytes in flight under every device wire order; an OPEN answered only after the caller timed out, followed by further commands; a device without stop-and-wait that writes up to 1000 packets of a suspended stream while another command runs; oracle = device-side '
         'per-stream payload record and Python bytes.decode(utf8, backslashreplace); non-trivial = output non-empty; distinct = distinct '
         '(output, partition, api, decode, twin, close timing, deviations)')
 ASSUMPTIONS = ['adbsim is a faithful adbd model (one unacknowledged WRTE per stream, CLSE after the last ack or eagerly)',
@@ -126,6 +126,45 @@ def run_iso(params, ch):
         s.finish()
 
 
+def run_backlog(params, ch):
+    """A device that does not wait for acknowledgements writes m packets of a suspended stream while another command runs: they
+    all have to be parked and delivered later, in order."""
+    twin, m = params['twin'], params['m']
+    other = [b'A%05d\n' % i for i in range(m + 1)]
+    mine = [b'mi', b'ne']
+    cfg = {'shell': {b'shell:other': other, b'shell:c': mine}, 'flood': True}
+    s = Session(ch, cfg, twin=twin, order_budgeted=True)      # wire order: oldest packet first (a budgeted choice with budget 0 here)
+    try:
+        s.op(('connect',))
+        if twin == 'sync':
+            def body(d):
+                g = d.streaming_shell('other', decode=False)
+                first = next(g)
+                mid = d.shell('c', decode=False)
+                return first, mid, list(g)
+        else:
+            async def body(d):
+                g = d.streaming_shell('other', decode=False)
+                first = await g.__anext__()
+                mid = await d.shell('c', decode=False)
+                return first, mid, [x async for x in g]
+        r = s.run(body)
+        viol = [{'msg': '%s: %s' % i} for i in s.env.issues if i[0] != 'okay']
+        if r[0] != 'ok':
+            viol.append({'msg': 'backlog scenario ended with %r' % (r,)})
+        else:
+            first, mid, rest = r[1]
+            if [first] + rest != other:
+                got = [first] + rest
+                n = next((i for i, (a, b) in enumerate(zip(got, other)) if a != b), min(len(got), len(other)))
+                viol.append({'msg': 'suspended stream yielded %d payloads, device wrote %d; first difference at index %d (%r)' % (len(got), len(other), n, got[n:n + 1])})
+            if mid != b''.join(mine):
+                viol.append({'msg': 'shell returned %r, device wrote %r on that stream' % (mid, mine)})
+        return {'outcome': (r[0], m), 'viol': viol, 'nontrivial': (twin, m), 'sample': dict(params, result=r[0]), 'trans': len(s.env.events)}
+    finally:
+        s.finish()
+
+
 def run_late(params, ch):
     """The device answers an OPEN only after the caller gave up; the next command on the same connection must still get
     exactly its own output (the late OKAY / WRTE / CLSE of the abandoned stream must not leak into it)."""
@@ -189,4 +228,7 @@ def parts(tier):
             for dl in (0.7, 1.2, 1.7, 30.0) for nl in (0, 1, 2)]
     out.append(Part('late-answers', late, run_late, {'dev-order': None}, what='an OPEN answered only after the caller gave up, then two more commands on the same connection; all wire orders',
                     bound='%d cases x all dev-order choices' % len(late)))
+    back = [{'twin': t, 'm': m} for t in twins for m in (0, 1, 2, 100, 255, 256, 257, 1000)]
+    out.append(Part('backlog-without-flow-control', back, run_backlog, {'dev-order': 0}, what='a device that ignores stop-and-wait writes up to 1000 packets of a suspended stream while another command runs',
+                    bound='%d cases' % len(back), min_outcomes=1))
     return out
